@@ -1789,9 +1789,101 @@ def directed_known_class_cases():
     return cases
 
 
+def directed_nested_mapping_cases(full):
+    """D13 (round 6, seed C03-10): a MappingPT directly around a constraint-free, unnamed MappingPT -- the constructor
+    composes the two parameter mappings (flattening).  The composition has to be the *simultaneous* substitution of the
+    outer mapping into the inner expressions; this matters exactly when an expression of the outer mapping mentions a
+    name that is also a key of the outer mapping (names exchanged, shifted up / down the alphabet, rotated, self
+    referential) and an inner expression combines several of those names asymmetrically.  Outer mapping kinds x inner
+    mapping kinds (x leaf kind x position: top level, SequencePT / AtomicMultiChannelPT child as object and in tuple
+    form, below a third mapping) x {leaf constraint `h == v` with the true composed value v (accept), `h < v`, `h > v`
+    (reject: any wrong h accepts one of them), constraint on the outer mapping node (outer scope), each declared name
+    removed (parameter_names of the composition)}"""
+    u, w, s = 'p0', 'p1', 'p3'
+    ref = {'p0': F(5), 'p1': F(2), 'p2': F(1), 'p3': F(-3)}
+    sub_, add_, mul_ = (lambda a, b: ['-', a, b]), (lambda a, b: ['+', a, b]), (lambda a, b: ['*', a, b])
+    outers = [
+        ('swap', {u: V(w), w: V(u)}),
+        ('shift_up', {u: V(w), w: V(s)}),
+        ('shift_down', {w: V(u), u: V(s)}),
+        ('rot3', {u: V(w), w: V(s), s: V(u)}),
+        ('rot3back', {u: V(s), s: V(w), w: V(u)}),
+        ('selfref', {u: mul_(V(u), V(w)), w: V(u)}),
+        ('scaled_swap', {u: mul_(V(w), C(2)), w: sub_(V(u), C(1))}),
+        ('one_sided', {u: mul_(V(w), C(2))}),                     # partial outer mapping: w stays w (identity completion)
+        ('fresh', {u: V(s), w: mul_(V(s), C(2))}),      # control: no clash
+    ]
+    inners = [
+        ('diff', {'h9': sub_(V(u), V(w))}, False),
+        ('lin', {'h9': add_(V(u), mul_(V(w), C(2)))}, False),
+        ('sq', {'h9': sub_(mul_(V(u), V(u)), V(w))}, False),
+        ('two_keys', {'h9': sub_(V(u), V(w)), 'g9': V(w)}, False),
+        ('own_name', {u: sub_(V(u), V(w))}, False),     # the inner key is itself one of the exchanged names (partial)
+        ('three', {'h9': add_(sub_(V(u), V(w)), mul_(V(s), C(3)))}, True),
+    ]
+    leaves = ['table', 'point', 'func']
+    positions = ['top', 'seq_obj', 'seq_tup', 'amc_obj', 'amc_tup', 'third']
+    cases = []
+    combos = []
+    for oi, (oname, om) in enumerate(outers):
+        for ii, (iname, im, needs_s) in enumerate(inners):
+            if (s in om) != needs_s and s in om:        # an outer key that the inner mapping does not declare
+                continue
+            if full:
+                combos += [(oi, ii, li, pi) for li in range(len(leaves)) for pi in range(len(positions))]
+            else:
+                combos.append((oi, ii, (oi + ii) % len(leaves), (oi + 2 * ii) % len(positions)))
+    for oi, ii, li, pi in combos:
+        oname, om = outers[oi]
+        iname, im, _ = inners[ii]
+        h = 'h9' if 'h9' in im else u
+        lk, pos = leaves[li], positions[pi]
+        leaf = d_target(lk, h)
+        if 'g9' in im:
+            leaf = {'k': 'aat', 'lhs': leaf, 'rhs': _const(V('g9'), 'A'), 'op': '+', 'ms': []}
+        if h == u:                                       # own_name: the leaf also reads w itself
+            leaf = {'k': 'aat', 'lhs': leaf, 'rhs': _const(V(w), 'A'), 'op': '+', 'ms': []}
+        inner = {'k': 'map', 'inner': leaf, 'm': copy.deepcopy(im), 'cs': []}
+        outer = _tagged({'k': 'map', 'inner': inner, 'm': copy.deepcopy(om), 'cs': [], 'tup': pos.endswith('_tup')}, 'O')
+        if pos == 'top':
+            tree = outer
+        elif pos.startswith('seq'):
+            tree = {'k': 'seq', 'subs': [_const(V('p2')), outer], 'cs': [], 'ms': []}
+        elif pos.startswith('amc'):
+            tree = {'k': 'amc', 'subs': [outer, _const(V('p2'), 'B')], 'cs': [], 'ms': []}
+        else:                                            # a third mapping above: two flattenings in a row
+            tree = {'k': 'map', 'inner': outer, 'm': {k: V(k2) for k, k2 in zip(sorted(py_pnames(strip_tags(outer))),
+                                                                              sorted(py_pnames(strip_tags(outer)))[1:]
+                                                                              + sorted(py_pnames(strip_tags(outer)))[:1])},
+                    'cs': []}
+        if not (sympy_ok(strip_tags(tree)) and constructible(strip_tags(tree))):
+            continue
+        vals = _values_at(tree, 'T', h, ref)
+        if not vals:
+            continue
+        v = vals[0]
+        base = 'D13:%s:%s:%s:%s' % (oname, iname, lk, pos)
+        for cname, op in (('accept', '=='), ('reject_lt', '<'), ('reject_gt', '>')):
+            t2 = copy.deepcopy(tree)
+            find_tag(t2, 'T')['cs'] = [{'op': op, 'l': V(h), 'r': C(v)}]
+            cases.append(d_case(t2, ref, '%s:%s' % (base, cname)))
+        # a constraint on the outer mapping node: judged with the outer values of the exchanged names
+        ou = _values_at(tree, 'O', u, ref)
+        if ou:
+            for cname, op in (('outer_accept', '=='), ('outer_reject', '<')):
+                t2 = copy.deepcopy(tree)
+                find_tag(t2, 'O')['cs'] = [{'op': op, 'l': V(u), 'r': C(ou[0])}]
+                if not find_tag(t2, 'O').get('tup'):
+                    cases.append(d_case(t2, ref, '%s:%s' % (base, cname)))
+        for rm in range(len(py_pnames(strip_tags(tree)))):
+            cases.append(d_case(tree, ref, '%s:removed%d' % (base, rm), kind='removed', rm=rm))
+    return cases
+
+
 def directed_cases(tier):
     full = tier == 'thorough'
-    return (directed_mapping_cases(full) + directed_loop_cases() + directed_extra_cases()
+    return (directed_nested_mapping_cases(full)
+            + directed_mapping_cases(full) + directed_loop_cases() + directed_extra_cases()
             + directed_channel_cases() + directed_frame_cases(full) + directed_history_cases(full)
             + directed_hash_loop_cases(full) + directed_alias_cases(full) + directed_atom_cases()
             + directed_par_atomic_cases(full) + directed_par_td_cases(full)
